@@ -13,6 +13,10 @@ Fourth pass: `transpose` (nested push loops = row-major enumeration, `flatMap_ra
 onto the cells, so every cell is written exactly once and the initial copy is irrelevant — `foldl_set_bij_eq_map`),
 `diag_matrix` (only the diagonal cells are written, once each; the others keep the zero of `vec![0.; n * n]`).
 
+Shape tolerance (robustness pass): a vector built by `collect`, by a push loop, by nested push loops or by `extend` of a mapped
+range has ONE normal form on the generated side (`map` / `flatMap`); the theorems nevertheless try the older fold spellings too
+(`first | rfl | ..`, bridging lemmas `foldl_push_map`, `foldl_foldl_push_eq_flatMap`, `foldl_append_eq_flatMap`).
+
 Where the hand model is not syntactically the source:
 * `linspace`: the source's checked `num - 1` is the guard `1 ≤ num` on the generated side, the model tests `num = 0`
   (`Nat` case analysis); the formula `start + i as f64 * width` and `width` are the model's by `rfl`.
@@ -37,7 +41,7 @@ theorem linspace_eq (start stop : α) (num : Nat) :
   · rw [if_neg h1, if_neg h1]
     by_cases h0 : num = 0
     · rw [if_pos h0, if_neg (by omega)]
-    · rw [if_neg h0, if_pos (by omega)]
+    · rw [if_neg h0, if_pos (by omega)] <;> rfl
 
 /-- `diag(a)`: `is_square(a).unwrap()`, then the pushes of the diagonal entries. -/
 theorem diag_eq (a : List α) : Cv.Src.C15Mut.diag a = Cv.Ctor.diagU a := by
@@ -45,15 +49,25 @@ theorem diag_eq (a : List α) : Cv.Src.C15Mut.diag a = Cv.Ctor.diagU a := by
   cases isSquareLen a.length with
   | none => rfl
   | some n =>
-    simp only [Option.bind_some, Option.map_some]
-    rw [Cv.SrcMut.foldl_push_map (fun i => a[i * n + i]!)]
-    rfl
+    -- shape-tolerant: the source may build the vector with `collect` (a `map`, `rfl`) or with a push loop (a fold)
+    first
+      | rfl
+      | (simp only [Option.bind_some, Option.map_some]
+         first
+           | rfl
+           | (rw [Cv.SrcMut.foldl_push_map (fun i => a[i * n + i]!)]; rfl))
 
 /-- `vandermonde(x, n)`: for each `v`, the pushes of `v.powi(0), …, v.powi(n-1)`. -/
 theorem vandermonde_eq (x : List α) (n : Nat) : Cv.Src.C15Mut.vandermonde x n = Cv.Ctor.vandermonde x n := by
   unfold Cv.Src.C15Mut.vandermonde Cv.Ctor.vandermonde
-  rw [Cv.SrcMut.foldl_foldl_push_eq_flatMap (fun _ => List.range n) (fun v (i : Nat) => Cv.powi v ((i : Nat) : Int))]
-  rfl
+  -- shape-tolerant: `flat_map` / nested push loops / a loop that extends by a mapped range
+  first
+    | rfl
+    | (rw [Cv.SrcMut.foldl_foldl_push_eq_flatMap (fun _ => List.range n) (fun v (i : Nat) => Cv.powi v ((i : Nat) : Int))]
+       rfl)
+    | (rw [Cv.SrcMut.foldl_append_eq_flatMap
+        (fun v => List.map (fun (i : Nat) => Cv.powi v ((i : Nat) : Int)) (List.range n))]
+       rfl)
 
 /-! ### fourth pass: `transpose`, `row_to_col_major`, `col_to_row_major`, `diag_matrix` -/
 
@@ -85,9 +99,15 @@ theorem transpose_eq (a : List α) (nrows : Nat) :
   | none => rfl
   | some ncols =>
     simp only [Option.bind_some, Option.map_some]
-    rw [Cv.SrcMut.foldl_foldl_push_eq_flatMap (fun _ => List.range nrows) (fun j i => a[i * ncols + j]!),
-      List.nil_append, Cv.SrcMut.flatMap_range_map_range]
-    rfl
+    -- shape-tolerant: `flat_map` of mapped ranges / nested push loops / a loop that extends by a mapped range
+    first
+      | (rw [Cv.SrcMut.flatMap_range_map_range]; rfl)
+      | (rw [Cv.SrcMut.foldl_foldl_push_eq_flatMap (fun _ => List.range nrows) (fun j i => a[i * ncols + j]!),
+          List.nil_append, Cv.SrcMut.flatMap_range_map_range]
+         rfl)
+      | (rw [Cv.SrcMut.foldl_append_eq_flatMap (fun j => List.map (fun i => a[i * ncols + j]!) (List.range nrows)),
+          List.nil_append, Cv.SrcMut.flatMap_range_map_range]
+         rfl)
 
 /-- `row_to_col_major(a, nrows)`: the copy `x = a.to_vec()` is overwritten cell by cell, `x[j*nrows+i] = a[i*ncols+j]`; the
 pairs `(i, j)` hit every cell exactly once (`p ↦ (p % nrows, p / nrows)`), so the result is the model's `map`. -/
